@@ -5,7 +5,10 @@ from tools import graphalg, vlib
 class C17(vlib.Spec):
     model_vo = ["theories/GraphAlg/Check.vo"]
     props_vo = "theories/Props/C17.vo"
-    theorems = ["C17_uf_find_terminates"]
+    theorems = ["C17_topo_sort_ok", "C17_topo_sort_ok_perm", "C17_topo_sort_cycle", "C17_topo_sort_fuel",
+                "C17_topo_sort_adj_total", "C17_topo_sort_ok_iff_acyclic",
+                "C17_uf_find_terminates", "C17_uf_reachable_inv", "C17_uf_same_set_spec",
+                "C17_uf_find_correct", "C17_uf_union_keeps_first_root"]
     crate, group, binary = "h_graphalg", "dfir", "h_graphalg"
     imports = "From Coq Require Import List NArith.\nFrom HV Require Import GraphAlg.Model GraphAlg.Check.\nImport ListNotations."
     level = "proof"
